@@ -108,6 +108,24 @@ pub fn bit(n: NodeId) -> u64 {
     }
 }
 
+/// Break a connection at an exact frame: when frame `fidx` of the `conn_idx`-th connection of
+/// the link (dialer -> listener, svc) is written (or becomes readable) in the given direction,
+/// the connection is reset at that very instant; the next `refuse_after` connection attempts of
+/// that link are then refused.
+#[derive(Clone, Debug, Serialize, Deserialize)]
+pub struct Break {
+    pub dialer: NodeId,
+    pub listener: NodeId,
+    pub svc: u8,
+    pub conn_idx: u32,
+    pub to_listener: bool,
+    pub fidx: u32,
+    pub at_delivered: bool,
+    pub refuse_after: u32,
+    #[serde(default)]
+    pub fired: bool,
+}
+
 #[derive(Clone, Debug, Serialize, Deserialize)]
 pub struct NetCfg {
     pub base_lat_us: (u64, u64),
@@ -123,6 +141,11 @@ pub struct NetCfg {
     pub rules: Vec<Rule>,
     /// (instant, delta in ms) jumps of the simulated wall clock.
     pub clock_jumps: Vec<(u64, i64)>,
+    #[serde(default)]
+    pub breaks: Vec<Break>,
+    /// Connection attempts refused at the start, per link (dialer, listener, svc, count).
+    #[serde(default)]
+    pub refuse_first: Vec<(NodeId, NodeId, u8, u32)>,
 }
 
 impl Default for NetCfg {
@@ -139,6 +162,8 @@ impl Default for NetCfg {
             split_read_prob: 0.0,
             rules: Vec::new(),
             clock_jumps: Vec::new(),
+            breaks: Vec::new(),
+            refuse_first: Vec::new(),
         }
     }
 }
@@ -242,6 +267,8 @@ struct Pipe {
     read_calls: u64,
     fin: bool,
     reader_gone: bool,
+    /// Bytes delivered before a break are still readable; the error comes after them.
+    reset_after_drain: bool,
     tap_w: FrameParser,
     tap_r: FrameParser,
 }
@@ -258,6 +285,7 @@ impl Pipe {
             read_calls: 0,
             fin: false,
             reader_gone: false,
+            reset_after_drain: false,
             tap_w: FrameParser::default(),
             tap_r: FrameParser::default(),
         }
@@ -327,6 +355,8 @@ pub struct NetInner {
     /// Rolling hash of every tap event: the determinism witness of a run.
     pub log_hash: u64,
     pub events_processed: u64,
+    refuse_budget: BTreeMap<(NodeId, NodeId, u8), u32>,
+    pending_break: Option<usize>,
 }
 
 #[derive(Clone)]
@@ -407,7 +437,24 @@ impl NetInner {
             tag,
             payload_hash,
         ]);
+        let breakpoint = if let TapKind::Frame { phase, fidx, .. } = &ev.kind {
+            let delivered = *phase == Phase::Delivered;
+            self.cfg.breaks.iter().position(|b| {
+                !b.fired && b.dialer == ev.dialer && b.listener == ev.listener && b.svc == ev.svc && b.conn_idx == ev.conn_idx && b.to_listener == ev.to_listener && b.fidx == *fidx && b.at_delivered == delivered
+            })
+        } else {
+            None
+        };
         self.tap.push(ev);
+        if let Some(k) = breakpoint {
+            self.cfg.breaks[k].fired = true;
+            let b = self.cfg.breaks[k].clone();
+            if b.refuse_after > 0 {
+                *self.refuse_budget.entry((b.dialer, b.listener, b.svc)).or_insert(0) += b.refuse_after;
+            }
+            self.count("break-at-frame");
+            self.pending_break = Some(conn);
+        }
     }
 
     fn blocked(&self, a: NodeId, b: NodeId, svc: u8, t: u64) -> Option<usize> {
@@ -504,6 +551,10 @@ impl NetInner {
             self.conns[conn].pipes[dir].in_flight.push_back((at, Bytes::copy_from_slice(data)));
             self.push_ev(at, Ev::Deliver(conn, dir));
         }
+        if let Some(c) = self.pending_break.take() {
+            // The frame just written is lost with the connection.
+            self.do_reset(c, true);
+        }
         Ok(data.len())
     }
 
@@ -542,6 +593,14 @@ impl NetInner {
         }
         if let Some(w) = self.conns[conn].pipes[dir].reader_waker.take() {
             w.wake();
+        }
+        if let Some(c) = self.pending_break.take() {
+            // Break right after the bytes became readable: keep them readable (the peer did get
+            // the frame) but fail everything else on the connection.
+            let keep: Vec<u8> = self.conns[c].pipes[dir].readable.iter().cloned().collect();
+            self.do_reset(c, true);
+            self.conns[c].pipes[dir].readable.extend(keep);
+            self.conns[c].pipes[dir].reset_after_drain = true;
         }
     }
 
@@ -596,6 +655,13 @@ impl NetInner {
         if self.blocked(dialer, target, svc, now).is_some() {
             self.count("refuse");
             return Err(refused());
+        }
+        if let Some(k) = self.refuse_budget.get_mut(&(dialer, target, svc)) {
+            if *k > 0 {
+                *k -= 1;
+                self.count("refuse-scripted");
+                return Err(refused());
+            }
         }
         let harness = match self.listeners.get(&(target, svc)) {
             Some(l) => l.harness,
@@ -656,7 +722,12 @@ impl Net {
             fault_counts: BTreeMap::new(),
             log_hash: 0,
             events_processed: 0,
+            refuse_budget: BTreeMap::new(),
+            pending_break: None,
         };
+        for (d, l, s, k) in inner.cfg.refuse_first.clone() {
+            inner.refuse_budget.insert((d, l, s), k);
+        }
         for i in 0..inner.cfg.rules.len() {
             if inner.cfg.rules[i].kind == RuleKind::Block {
                 let t0 = inner.cfg.rules[i].t0_us;
@@ -867,7 +938,7 @@ impl AsyncRead for SimStream {
     fn poll_read(self: Pin<&mut Self>, cx: &mut Context<'_>, buf: &mut ReadBuf<'_>) -> Poll<io::Result<()>> {
         let mut g = self.net.inner.lock().unwrap();
         let dir = if self.side_dialer { 1 } else { 0 };
-        if g.conns[self.conn].reset {
+        if g.conns[self.conn].reset && !(g.conns[self.conn].pipes[dir].reset_after_drain && !g.conns[self.conn].pipes[dir].readable.is_empty()) {
             return Poll::Ready(Err(io::Error::new(io::ErrorKind::ConnectionReset, "sim: connection reset")));
         }
         let seed = g.seed;
